@@ -40,6 +40,16 @@ class Raised(Exception):
     self.node = node
 
 
+class ExcValue:
+  """the exception object bound by `except ... as e`"""
+
+  def __init__(self, names):
+    self.names = names
+
+  def __repr__(self):
+    return 'ExcValue(%s)' % self.names[0]
+
+
 class _Return(Exception):
   def __init__(self, v):
     self.v = v
@@ -231,8 +241,17 @@ class Interp:
     if isinstance(s, ast.Return):
       raise _Return(self.ev(s.value) if s.value is not None else None)
     if isinstance(s, ast.Raise):
-      names = self.repo.exception_bases(self.func.module, s.exc) \
-          if s.exc is not None else ['?']
+      if s.exc is None:
+        raise Undecided('bare raise')
+      names = self.repo.exception_bases(self.func.module, s.exc)
+      if isinstance(s.exc, ast.Call):
+        for a_ in s.exc.args:       # the message is evaluated first
+          try:
+            self.ev(a_)
+          except Undecided:
+            pass                    # an opaque message changes nothing
+      if not names:
+        raise Undecided('raise %s' % ast.unparse(s.exc)[:40])
       raise Raised(names, s)
     if isinstance(s, ast.Pass):
       return
@@ -254,6 +273,35 @@ class Interp:
             del base[idx]
             continue
         raise Undecided('del %s' % ast.unparse(t))
+      return
+    if isinstance(s, ast.Try):
+      try:
+        try:
+          self.block(s.body)
+        except Raised as r:
+          for h in s.handlers:
+            if h.type is None:
+              caught = None
+            else:
+              types = h.type.elts if isinstance(h.type, ast.Tuple) \
+                  else [h.type]
+              caught = set()
+              for t in types:
+                caught |= set(self.repo.exception_bases(self.func.module,
+                                                        t)[:1])
+            if caught is None or caught & set(r.names) or \
+                    caught & {'Exception', 'BaseException'}:
+              if h.name:
+                self.env[h.name] = ExcValue(r.names)
+              self.block(h.body)
+              break
+          else:
+            raise
+        else:
+          self.block(s.orelse)
+      finally:
+        if s.finalbody:
+          self.block(s.finalbody)
       return
     if isinstance(s, ast.Assert):
       return
@@ -285,6 +333,12 @@ class Interp:
     if isinstance(t, ast.Subscript):
       base = self.ev(t.value)
       idx = self.ev_index(t.slice)
+      if isinstance(base, dict):
+        try:
+          base[idx] = v
+        except TypeError:
+          raise Undecided('unhashable key')
+        return
       if isinstance(base, Arr) and isinstance(idx, Arr) and \
               len(idx) == len(base) and all(x in (0, 1) for x in idx.xs) \
               and getattr(idx, 'is_mask', False):
@@ -312,8 +366,8 @@ class Interp:
 
   # ------------------------------------------------------------ expressions
   def truth(self, v, node):
-    if isinstance(v, (bool, int, str, list, tuple, dict, set, frozenset)) \
-            or v is None:
+    if isinstance(v, (bool, int, str, list, tuple, dict, set, frozenset,
+                      Fraction)) or v is None:
       return bool(v)
     if isinstance(v, Arr):
       if len(v) == 1:
@@ -333,6 +387,8 @@ class Interp:
       return list(v.xs)
     if isinstance(v, (set, frozenset)):
       return sorted(v, key=repr)
+    if isinstance(v, dict):
+      return list(v)
     r = self.world.iterate(self, v, node)
     if r is NotImplemented:
       raise Undecided('iteration over %r' % (v,))
@@ -407,8 +463,11 @@ class Interp:
       return not (a is b or (a is None and b is None))
     plain = (int, str, bool, tuple, type(None))
     if isinstance(op, (ast.In, ast.NotIn)):
-      if isinstance(b, (list, tuple, set, frozenset, range, str)):
-        r = a in b
+      if isinstance(b, (list, tuple, set, frozenset, range, str, dict)):
+        try:
+          r = a in b
+        except TypeError:
+          raise Undecided('membership test')
       elif isinstance(b, Arr):
         r = a in b.xs
       else:
@@ -458,6 +517,9 @@ class Interp:
         raise Raised(['UnboundLocalError', 'NameError'], e)
       r = self.world.name(self, e.id)
       if r is NotImplemented:
+        import builtins
+        if isinstance(getattr(builtins, e.id, None), type):
+          return Lib(e.id)
         raise Undecided('name %s' % e.id)
       return r
     if isinstance(e, ast.Tuple):
@@ -466,6 +528,22 @@ class Interp:
       return [self.ev(x) for x in e.elts]
     if isinstance(e, ast.JoinedStr):
       return '<message>'
+    if isinstance(e, ast.Dict):
+      out = {}
+      for k_, v_ in zip(e.keys, e.values):
+        if k_ is None:
+          dv = self.ev(v_)
+          if not isinstance(dv, dict):
+            raise Undecided('dict unpacking')
+          out.update(dv)
+          continue
+        kk = self.ev(k_)
+        try:
+          hash(kk)
+        except TypeError:
+          raise Undecided('unhashable dict key')
+        out[kk] = self.ev(v_)
+      return out
     if isinstance(e, ast.UnaryOp):
       v = self.ev(e.operand)
       if isinstance(e.op, ast.Not):
@@ -509,6 +587,8 @@ class Interp:
     if isinstance(e, ast.Attribute):
       d = self.repo.dotted(self.func.module, e)
       if d is not None and not self._local_root(e):
+        if d == 'numpy.newaxis':
+          return None
         return Lib(d)
       base = self.ev(e.value)
       r = self.world.attr(self, base, e.attr, e)
@@ -574,6 +654,13 @@ class Interp:
         self.env.pop(nm, None)
 
   def subscript(self, base, idx, node):
+    if isinstance(base, dict):
+      try:
+        if idx in base:
+          return base[idx]
+      except TypeError:
+        raise Undecided('unhashable key')
+      raise Raised(['KeyError'], node)
     if isinstance(base, (list, tuple, str, range)):
       if _is_int(idx) or isinstance(idx, slice):
         if isinstance(idx, slice) and not all(
@@ -615,7 +702,17 @@ class Interp:
     kwargs = {}
     for k in e.keywords:
       if k.arg is None:
-        raise Undecided('**kwargs')
+        dv = self.ev(k.value)
+        if not isinstance(dv, dict) or \
+                not all(isinstance(x, str) for x in dv):
+          raise Undecided('**%r' % (dv,))
+        for kk, vv in dv.items():
+          if kk in kwargs:
+            raise Raised(['TypeError'], e)
+          kwargs[kk] = vv
+        continue
+      if k.arg in kwargs:
+        raise Raised(['TypeError'], e)
       kwargs[k.arg] = self.ev(k.value)
     # builtins
     if isinstance(f, ast.Name) and f.id not in self.env and \
@@ -752,6 +849,18 @@ class Interp:
       raise Undecided('isinstance')
     if name == 'print':
       return None
+    if name == 'dict' and not args:
+      return dict(kwargs)
+    if name == 'dict' and len(args) == 1 and isinstance(args[0], dict):
+      d_ = dict(args[0])
+      d_.update(kwargs)
+      return d_
+    if name == 'str' and len(args) == 1:
+      if isinstance(args[0], (int, str)) and not isinstance(args[0], bool):
+        return str(args[0])
+      return '<message>'
+    if name == 'repr' and len(args) == 1:
+      return '<message>'
     if name == 'set' and len(args) <= 1:
       vals = self.iterate(args[0], node) if args else []
       try:
@@ -921,6 +1030,33 @@ class Interp:
         return max(recv.xs)
       if attr == 'min' and recv.xs:
         return min(recv.xs)
+    if isinstance(recv, dict):
+      if attr == 'get' and 1 <= len(args) <= 2:
+        try:
+          return recv.get(args[0], args[1] if len(args) > 1 else None)
+        except TypeError:
+          raise Undecided('unhashable key')
+      if attr == 'items' and not args:
+        return list(recv.items())
+      if attr == 'keys' and not args:
+        return list(recv.keys())
+      if attr == 'values' and not args:
+        return list(recv.values())
+      if attr == 'copy' and not args:
+        return dict(recv)
+      if attr == 'update' and len(args) <= 1:
+        if args:
+          if not isinstance(args[0], dict):
+            raise Undecided('dict.update')
+          recv.update(args[0])
+        recv.update(kwargs)
+        return None
+      if attr == 'pop' and 1 <= len(args) <= 2:
+        if args[0] in recv:
+          return recv.pop(args[0])
+        if len(args) == 2:
+          return args[1]
+        raise Raised(['KeyError'], node)
     if isinstance(recv, set):
       if attr == 'add' and len(args) == 1:
         try:
